@@ -4,6 +4,8 @@ import (
 	"fmt"
 	"strings"
 	"time"
+
+	rt "github.com/uber-go/tally/v4/verifrt"
 )
 
 // schedScenarios returns the sched scenarios of a property for a tier.
@@ -25,6 +27,10 @@ func schedScenarios(prop, tier string) []*Scenario {
 		return c11Scenarios(tier)
 	case "C20":
 		return c20Scenarios(tier)
+	case "C13":
+		return c13Scenarios(tier)
+	case "C14":
+		return c14Scenarios(tier)
 	}
 	return nil
 }
@@ -44,7 +50,18 @@ func listItems(prop, tier string) []Item {
 		budget = 600
 	}
 	for _, s := range schedScenarios(prop, tier) {
-		items = append(items, Item{Kind: "sched", Name: s.Name, Bound: schedBound(prop, tier), Shards: 1, BudgetS: budget})
+		sh := s.Shards
+		if sh < 1 {
+			sh = 1
+		}
+		b := schedBound(prop, tier)
+		if s.BoundSet {
+			b = s.Bound
+		}
+		items = append(items, Item{Kind: "sched", Name: s.Name, Bound: b, Shards: sh, BudgetS: budget})
+	}
+	if len(schedScenarios(prop, tier))+len(raceScenarios(prop, tier)) > 0 {
+		items = append(items, Item{Kind: "race", Name: "race-pass", Shards: 1, BudgetS: budget})
 	}
 	for _, j := range seqJobList(prop, tier) {
 		n := j.Shards
@@ -92,6 +109,8 @@ func seqJobList(prop, tier string) []*SeqJob {
 		return c15Jobs(tier)
 	case "C12":
 		return c12Jobs(tier)
+	case "C13":
+		return c13Jobs(tier)
 	}
 	return nil
 }
@@ -126,8 +145,41 @@ func runSeq(prop, tier, name string, shard, nshards int, budget time.Duration) i
 	return runSeqJob(j, shard, nshards, budget)
 }
 
+// raceScenarios are bodies that only make sense free-running under -race
+// (the cooperative scheduler cannot interleave inside unsynchronised code).
+func raceScenarios(prop, tier string) []*Scenario {
+	switch prop {
+	case "C14":
+		return c14RaceScenarios(tier)
+	case "C09":
+		return c09RaceScenarios(tier)
+	}
+	return nil
+}
+
+// runRace runs every scenario body of the property free-running (real
+// goroutines, real sync primitives) in a binary built with -race. The race
+// detector's report on stderr is the oracle; the check driver parses it.
 func runRace(prop, tier, name string) *WorkerResult {
-	return &WorkerResult{Scenario: name, Infra: "no race job " + prop + "/" + name}
+	rt.SetMode(rt.Free)
+	runs := tierInt(tier, 30, 300)
+	st := &Stats{Outcomes: map[string]int64{}}
+	start := time.Now()
+	all := append(schedScenarios(prop, tier), raceScenarios(prop, tier)...)
+	for _, sc := range all {
+		for i := 0; i < runs; i++ {
+			x := &Run{Vals: map[string]interface{}{}}
+			func() {
+				defer func() { _ = recover() }()
+				sc.Body(x)
+			}()
+			x.cleanup()
+			st.Executions++
+		}
+		st.Sample = append(st.Sample, sc.Name)
+	}
+	st.WallS = time.Since(start).Seconds()
+	return &WorkerResult{Scenario: "race-pass", Stats: st}
 }
 
 func replaySeq(v *Violation) int {
